@@ -5,6 +5,7 @@ import (
 	"fmt"
 	"io"
 	"log"
+	"net/http"
 	"os"
 	"regexp"
 	"runtime/debug"
@@ -113,6 +114,27 @@ type Step struct {
 	// (== len(Viol) after the step if none).
 	ViolFrom int
 	nviol    int
+	// Faulted: the event ran under a fault plan.
+	Faulted bool
+	// Calls / Fired: storage calls made and whether the plan injected.
+	Calls []string
+	Fired bool
+}
+
+// CallsAt returns the storage calls recorded for step i.
+func (x *Exec) CallsAt(i int) []string { return x.Steps[i].Calls }
+
+// FaultFiredAt reports whether step i's fault plan injected.
+func (x *Exec) FaultFiredAt(i int) bool { return x.Steps[i].Fired }
+
+// AnyFaultFired reports whether any step injected a fault.
+func (x *Exec) AnyFaultFired() bool {
+	for _, s := range x.Steps {
+		if s.Fired {
+			return true
+		}
+	}
+	return false
 }
 
 func violBefore(x *Exec, st Step) int { return st.nviol }
@@ -122,6 +144,8 @@ type Violation struct {
 	Kind   string `json:"kind"`   // oracle kind: sync-error, diverge, panic, ...
 	Sig    string `json:"sig"`    // normalised signature used for matching known findings
 	Detail string `json:"detail"` // free text
+	// Core, when set, overrides the default identity used for known findings.
+	Core string `json:"core,omitempty"`
 }
 
 // Exec is a finished (or aborted) execution.
@@ -151,6 +175,12 @@ type Exec struct {
 	KeepRaw bool
 	// Data is scratch space for observers.
 	Data map[string]any
+	// pending is the fault plan for the next server event (set by a "fault" event).
+	pending *FaultPlan
+	// LastCalls are the storage calls of the last armed server event.
+	LastCalls []string
+	// FaultFired reports whether the last armed plan actually injected.
+	FaultFired bool
 	// Created records, for every locally created change, what its author had
 	// applied at creation time.
 	Created []CreatedRec
@@ -554,6 +584,10 @@ func (r *Runner) Run(sc *Scenario, cfg Config, h []Event) *Exec {
 		}
 		st := x.step(e)
 		st.ViolFrom = violBefore(x, st)
+		if st.Faulted {
+			st.Calls = append([]string(nil), x.LastCalls...)
+			st.Fired = x.FaultFired
+		}
 		x.Steps = append(x.Steps, st)
 		if x.Aborted {
 			return x
@@ -577,6 +611,18 @@ func (x *Exec) step(e Event) Step {
 	}
 	var err error
 	var panicked bool
+	if e.K == "fault" {
+		var p FaultPlan
+		fmt.Sscanf(e.Op, "%d/%s", &p.Call, &p.Mode)
+		x.pending = &p
+		return st
+	}
+	if x.pending != nil && e.IsServer() {
+		disarm := x.armFault(x.pending)
+		x.pending = nil
+		st.Faulted = true
+		defer disarm()
+	}
 	switch e.K {
 	case "e":
 		if !rep.Attached {
@@ -764,6 +810,56 @@ func (x *Exec) sync(rep *Replica) error {
 		x.Purged += g0 - g1
 	}
 	return err
+}
+
+// FaultPlan is a single injected fault for the next server event.
+type FaultPlan struct {
+	Call int    // index of the storage call within the request (mode b/a)
+	Mode string // b = error before the call, a = error after it took effect, r = response lost, n = none (record only)
+}
+
+// ErrInjectedDB is the injected storage error.
+var ErrInjectedDB = fmt.Errorf("verif: injected storage fault")
+
+// armFault installs the plan for the duration of one server event and returns
+// a disarm function. Calls are recorded in x.LastCalls.
+func (x *Exec) armFault(p *FaultPlan) func() {
+	x.LastCalls = nil
+	x.FaultFired = false
+	w := x.R.W
+	n := 0
+	w.DBW.Before = func(m string) error {
+		idx := n
+		n++
+		x.LastCalls = append(x.LastCalls, m)
+		if p.Mode == "b" && idx == p.Call {
+			x.FaultFired = true
+			return ErrInjectedDB
+		}
+		return nil
+	}
+	w.DBW.After = func(m string, err error) error {
+		if p.Mode == "a" && len(x.LastCalls)-1 == p.Call && err == nil && !x.FaultFired {
+			x.FaultFired = true
+			return ErrInjectedDB
+		}
+		return nil
+	}
+	if p.Mode == "r" {
+		first := true
+		w.Transport.FaultFn = func(req *http.Request) world.Fault {
+			if first {
+				first = false
+				x.FaultFired = true
+				return world.FaultDropResponse
+			}
+			return world.FaultNone
+		}
+	}
+	return func() {
+		w.DBW.Before, w.DBW.After = nil, nil
+		w.Transport.FaultFn = nil
+	}
 }
 
 // StepPublic executes one extra event outside the enumerated history.
